@@ -307,6 +307,14 @@ def run_corrupt_one(gen, kind, raw_a, raw_b_intact, bits):
     # sanity of the generator: a pattern CRC-16 detects in covered/check bytes with the
     # length field intact must make the reference reject B itself
     # (length-field damage is judged by the reference parse of the whole stream)
+    fb = R.parse_stream(gen, damaged)[0]
+    if fb and fb[0].raw == damaged and fb[0].crc_ok:
+        # the altered frame carries the right check value for its altered bytes: not an error
+        # pattern CRC-16 detects (with the check bytes sent high byte first, a run of bits
+        # that crosses from the covered bytes into the check bytes is no burst of the code).
+        # Outside the premise of the property: whatever the client makes of it is not judged.
+        obs["pattern_not_detected_by_crc16"] = 1
+        return viol, obs
     expected = [baseline_delivery(gen, f.raw) for f in good]
     got = [d for cid, d in out["deliveries"] if cid == out["c1"]]
     if len(good) >= 1 and good[0].raw != raw_a:
